@@ -424,7 +424,10 @@ class TensorExpr:
                     derivatives[node] = (Add(*[derivatives[arg][0] for arg in succ]), derivatives[succ[0]][1])
                 elif isinstance(node, TAbs):
                     succ = list(self.ComGraph.successors(node))
-                    s1 = derivatives[succ[0]][1]
+                    # Sign(A) carries the index of Abs(A) itself. The index stored with the derivative of the operand is
+                    # the operand's own index for a symbol but already the index pair of A' for a product or a sum, and
+                    # then the Diag around Sign(A) was lost (Abs(x - c), Abs(c * x), Abs(-x) inside a matrix equation).
+                    s1 = node.index
                     s2 = index_s
                     Aprime = derivatives[succ[0]][0]
                     fprimeA = Sign(node.args[0])
